@@ -125,7 +125,11 @@ func (n *Names) CoqDump(d Dump) string {
 func (l *Literals) CoqHash() string {
 	var e []string
 	for i, c := range l.Class {
-		e = append(e, fmt.Sprintf("(%d%%N,%d%%N)", i, c))
+		if c < 0 {
+			e = append(e, fmt.Sprintf("(%d%%N,None)", i))
+		} else {
+			e = append(e, fmt.Sprintf("(%d%%N,Some %d%%N)", i, c))
+		}
 	}
 	return "[" + strings.Join(e, ";") + "]"
 }
